@@ -13,7 +13,7 @@ import (
 // rt: "route table + lookups" executor shared by C01, C02, C06, C07, C13 and the router part of C14.
 //
 // case : (rt (opt ...) (def ...) (query ...))
-// opt  : (strict) (na) (fb) (cache N) (intercept 'path) (nf) (nal)      nf/nal = custom NotFound/NotAllowed handlers
+// opt  : (strict) (na) (fb) (cache N) (intercept 'path) (nf) (nal) (lateopt)      nf/nal = custom NotFound/NotAllowed handlers
 // def  : (('M ...) 'path nilh)           raw arguments of Router.Add; route i gets the name "r<i>"
 // query: (m 'M 'path)                    Router.Match(M, path)
 //        (s 'M 'path)                    Router.ServeHTTP with method M and URL path
@@ -56,7 +56,7 @@ type rtRouter struct {
 func rtBuild(c Sx, caching bool) *rtRouter {
 	xs := c.Lst()
 	var opts []func(*rux.Router)
-	customNF, customNA := false, false
+	customNF, customNA, lateOpt := false, false, false
 	for _, o := range xs[1].Lst() {
 		switch o.Head() {
 		case "strict":
@@ -84,6 +84,8 @@ func rtBuild(c Sx, caching bool) *rtRouter {
 			customNF = true
 		case "nal":
 			customNA = true
+		case "lateopt":
+			lateOpt = true
 		default:
 			panic("rt: bad option " + o.String())
 		}
@@ -127,6 +129,22 @@ func rtBuild(c Sx, caching bool) *rtRouter {
 			rr.regs = append(rr.regs, A("ok"))
 		} else {
 			rr.regs = append(rr.regs, A("panic"))
+		}
+	}
+	if lateOpt { // options may only be applied while the router has no routes
+		ok := func() (ok bool) {
+			defer func() {
+				if e := recover(); e != nil {
+					ok = false
+				}
+			}()
+			rr.r.WithOptions(func(*rux.Router) {})
+			return true
+		}()
+		if ok {
+			rr.regs = append(rr.regs, A("lateopt-ok"))
+		} else {
+			rr.regs = append(rr.regs, A("lateopt-panic"))
 		}
 	}
 	return rr
